@@ -15,8 +15,12 @@ def check(F, rep):
     fns = [g for g in F.find(r"^(iroh_relay::relay_map::RelayMap::|<iroh_relay::relay_map::RelayMap as )") if not g.derived]
     rep.floor("lockset", "RelayMap methods analysed", len(fns), 12)
     nacq = 0
-    for g in fns:
-        rep.fn(g)
+    from ..inline import inlined
+    for g0 in fns:
+        rep.fn(g0)
+        # helpers (e.g. an extracted aliasing test) are analysed in line; a helper that is
+        # itself a RelayMap method keeps its own entry in this loop as well
+        g = inlined(F, g0, select=lambda f_, h_: h_.crate == f_.crate and h_.file == f_.file and h_.kind in ("Fn", "AssocFn") and not h_.coroutine and not h_.derived and h_.vis != "pub" and h_.path != f_.path and len(h_.blocks) <= 60)
         gs = [x for x in guards(g) if any(d[-1][-1:] == ("relays",) for d in x.lock if len(d) == 3)]
         nacq += len(gs)
         for second in gs:
